@@ -190,7 +190,23 @@ def make_inputs(input_list, repeat=None):
     return mock_input
 
 
-class PrintingStringIO(StringIO):
+class CapturingStringIO(StringIO):
+    """ The stream that student code gets as ``sys.stdout``. If the student closes it,
+    what they printed so far is kept instead of the grader failing to read it. """
+    _closed_value = None
+
+    def close(self):
+        if not self.closed:
+            self._closed_value = super().getvalue()
+        super().close()
+
+    def getvalue(self):
+        if self.closed and self._closed_value is not None:
+            return self._closed_value
+        return super().getvalue()
+
+
+class PrintingStringIO(CapturingStringIO):
     _ORIGINAL_STDOUT = sys.stdout
 
     def __init__(self, stdout=None, *args, **kwargs):
